@@ -77,7 +77,7 @@ var mixOps = []wop{
 	{12, opSend, "send"}, {6, opRetire, "retire"}, {5, opCancel, "cancel"}, {6, opCreateBatch, "batch"}, {4, opMint, "mint"},
 	{2, opSeal, "seal"}, {4, opBridge, "bridge"}, {3, opBridgeReceive, "receive"}, {8, opPut, "put"}, {7, opTake, "take"},
 	{4, opBankSend, "bank"}, {9, opSell, "sell"}, {5, opUpdateSell, "update"}, {3, opCancelSell, "cancel-sell"}, {10, opBuy, "buy"},
-	{1, opBuyMissing, "buy-gone"}, {4, opGov, "gov"}, {4, opAdminNoise, "admin"}, {2, opCreateClass, "class"}, {2, opCreateProject, "project"},
+	{1, opBuyMissing, "buy-gone"}, {3, opBuyAcrossMarkets, "buy-across"}, {4, opGov, "gov"}, {4, opAdminNoise, "admin"}, {2, opCreateClass, "class"}, {2, opCreateProject, "project"},
 	{2, opBasketCreate, "basket"}, {1, opBasketCurator, "curator"}, {1, opUnimplemented, "unimplemented"}, {1, opBurnRegen, "burn"},
 }
 
@@ -227,7 +227,7 @@ func opBigProduct(g *G) bool {
 }
 
 var marketOps = []wop{
-	{20, opSell, "sell"}, {15, opUpdateSell, "update"}, {6, opCancelSell, "cancel"}, {36, opBuy, "buy"}, {3, opBuyMissing, "buy-gone"},
+	{20, opSell, "sell"}, {15, opUpdateSell, "update"}, {6, opCancelSell, "cancel"}, {32, opBuy, "buy"}, {8, opBuyAcrossMarkets, "buy-across"}, {3, opBuyMissing, "buy-gone"},
 	{6, opFeeParams, "fees"}, {5, opDenomChurn, "denoms"}, {3, opSend, "send"}, {1, opGov, "gov"}, {3, opFeePoolSend, "pool"},
 }
 
@@ -388,4 +388,3 @@ func runExpiry(c Cfg) *Result {
 }
 
 func ptr(t time.Time) *time.Time { return &t }
-
